@@ -56,6 +56,15 @@ Proof. repeat split. Qed.
 Lemma K_no_ifs : k_ratio_ifs = 0 /\ k_calc_ifs = 0 /\ k_fcalc_ifs = 0.
 Proof. repeat split. Qed.
 
+(* round 4: the weight setter stores its argument as given (only None is replaced, by one `if`);
+   the surplus branch of the signal generator builds a fresh probability array from the fractions *)
+Lemma K_weight_store w : k_weight_store w = w.
+Proof. reflexivity. Qed.
+Lemma K_weight_ifs : k_weight_ifs = 1.
+Proof. reflexivity. Qed.
+Lemma K_sg_surplus_p n w : k_sg_surplus_p n w = if n >? 0 then w else 0.
+Proof. reflexivity. Qed.
+
 Lemma py_get_of_nth {A} (l : list A) k x : nth_error l k = Some x -> py_get l (Z.of_nat k) = Ok x.
 Proof.
   intros H. assert (L : (k < length l)%nat) by (apply nth_error_Some; congruence).
